@@ -288,4 +288,76 @@ theorem nameIdx_get {n : String} : ∀ {l : List String}, n ∈ l → l[nameIdx 
       · exact (hne h1.symm).elim
       · simpa using nameIdx_get h1
 
+theorem mem_isTypeOps_iff {t : Nat} : ∀ {is : List Instr}, t ∈ isTypeOps is ↔ Instr.isType t ∈ is
+  | [] => by simp [isTypeOps]
+  | i :: is => by
+    have ih := @mem_isTypeOps_iff t is
+    cases i <;> simp [isTypeOps, ih]
+
+theorem mapOpt_mem {α β : Type} {f : α → Option β} {l : List α} {l' : List β}
+    (h : mapOpt f l = some l') {a : α} (ha : a ∈ l) : ∃ b, b ∈ l' ∧ f a = some b := by
+  obtain ⟨i, hi⟩ := List.mem_iff_getElem?.mp ha
+  rcases mapOpt_get? h i with ⟨hn, _⟩ | ⟨a2, b, h1, h2, h3⟩
+  · rw [hi] at hn; cases hn
+  · rw [hi] at h1; cases h1
+    exact ⟨b, List.mem_of_getElem? h2, h3⟩
+
+theorem isTypeOps_rename {ρ : Ren} {is is' : List Instr} (h : renameInstrs ρ is = some is') {t t' : Nat}
+    (ht : t ∈ isTypeOps is) (ht' : ρ.type.get t = some t') : t' ∈ isTypeOps is' := by
+  obtain ⟨b, hb, hf⟩ := mapOpt_mem h (mem_isTypeOps_iff.mp ht)
+  simp only [renameInstr, ht', Option.map_some, Option.some.injEq] at hf
+  subst hf
+  exact mem_isTypeOps_iff.mpr hb
+
+theorem backMap_of_rank {s : List Nat} {n a i : Nat} (h : (rankMap s).get a = some i) : backMap s n i = a := by
+  simp [backMap, rankMap_get h]
+
+theorem nameIdx_of_get {n : String} : ∀ {l : List String} {r : Nat}, l.Nodup → l[r]? = some n → nameIdx n l = r
+  | [], r, _, h => by simp at h
+  | a :: as, 0, _, h => by
+    simp at h; simp [nameIdx, h]
+  | a :: as, r + 1, hn, h => by
+    simp only [List.getElem?_cons_succ] at h
+    have hmem : n ∈ as := List.mem_of_getElem? h
+    have hne : a ≠ n := by
+      intro heq; subst heq
+      exact (List.nodup_cons.mp hn).1 hmem
+    simp only [nameIdx, hne, if_false]
+    rw [nameIdx_of_get (List.nodup_cons.mp hn).2 h]
+
+
+
+theorem lookup_filterMap_pair {g : Nat → Option Nat} : ∀ (l : List Nat) {r j : Nat},
+    List.lookup r (l.filterMap (fun i => (g i).map (fun j => (i, j)))) = some j → g r = some j
+  | [], _, _, h => by simp at h
+  | i :: is, r, j, h => by
+    simp only [List.filterMap_cons] at h
+    cases hg : g i with
+    | none => rw [hg] at h; exact lookup_filterMap_pair is h
+    | some j0 =>
+      rw [hg] at h
+      simp only [Option.map_some, List.lookup_cons] at h
+      cases hri : r == i with
+      | true =>
+        rw [hri] at h
+        simp only [Option.some.injEq] at h
+        have : r = i := by simpa using hri
+        subst this; subst h; exact hg
+      | false =>
+        rw [hri] at h
+        exact lookup_filterMap_pair is h
+
+
+theorem any_eq_get {P : Prog} {p : Ty → Bool} (h : P.types.toList.any p = true) :
+    ∃ (n : Nat) (τ : Ty), P.types[n]? = some τ ∧ p τ = true := by
+  obtain ⟨τ, hm, hp⟩ := List.any_eq_true.mp h
+  obtain ⟨n, hn⟩ := List.mem_iff_getElem?.mp hm
+  exact ⟨n, τ, by simpa using hn, hp⟩
+
+theorem toTable_get (ι : String → Nat) {P : Prog} {n : Nat} {τ : Ty} (h : P.types[n]? = some τ) :
+    (toTable ι P).types[n]? = some (tyTo ι τ) := by
+  have : P.types.toList[n]? = some τ := by simpa using h
+  simp [toTable, List.getElem?_map, this]
+
+
 end QM.Packaging
